@@ -41,14 +41,14 @@ func mk(n, d int64) rat {
 	return rat{n / g, d / g}
 }
 
-func ri(n int64) rat          { return rat{n, 1} }
-func (a rat) add(b rat) rat   { return mk(a.n*b.d+b.n*a.d, a.d*b.d) }
-func (a rat) sub(b rat) rat   { return mk(a.n*b.d-b.n*a.d, a.d*b.d) }
-func (a rat) mul(b rat) rat   { return mk(a.n*b.n, a.d*b.d) }
-func (a rat) div(b rat) rat   { return mk(a.n*b.d, a.d*b.n) }
-func (a rat) neg() rat        { return rat{-a.n, a.d} }
-func (a rat) zero() bool      { return a.n == 0 }
-func (a rat) eq(b rat) bool   { return a.n == b.n && a.d == b.d }
+func ri(n int64) rat        { return rat{n, 1} }
+func (a rat) add(b rat) rat { return mk(a.n*b.d+b.n*a.d, a.d*b.d) }
+func (a rat) sub(b rat) rat { return mk(a.n*b.d-b.n*a.d, a.d*b.d) }
+func (a rat) mul(b rat) rat { return mk(a.n*b.n, a.d*b.d) }
+func (a rat) div(b rat) rat { return mk(a.n*b.d, a.d*b.n) }
+func (a rat) neg() rat      { return rat{-a.n, a.d} }
+func (a rat) zero() bool    { return a.n == 0 }
+func (a rat) eq(b rat) bool { return a.n == b.n && a.d == b.d }
 func (a rat) String() string {
 	if a.d == 1 {
 		return fmt.Sprint(a.n)
